@@ -5,12 +5,10 @@ package main
 // C08 — no input makes a command crash or hang.
 
 import (
-	"encoding/json"
 	"fmt"
 	"os"
 	"path/filepath"
 	"strings"
-	"sync"
 	"testing"
 	"time"
 
@@ -26,41 +24,8 @@ type c08Case struct {
 	Bin  bool              `json:"bin"`
 }
 
-// watchdog: a single in-process run that does not come back within the limit
-// (typical run: 1 ms) is recorded as a failure of the journaled case and the
-// worker exits; the driver turns the saved file into a VIOLATION.
-var (
-	c08Mu       sync.Mutex
-	c08Current  []byte
-	c08Deadline time.Time
-	c08Once     sync.Once
-)
-
+// watchdog: see vWatchArm in verif_common_test.go; C08 uses a limit of its own.
 const c08Limit = 60 * time.Second
-
-func c08Watch() {
-	c08Once.Do(func() {
-		go func() {
-			for {
-				time.Sleep(500 * time.Millisecond)
-				c08Mu.Lock()
-				cur, dl := c08Current, c08Deadline
-				c08Mu.Unlock()
-				if cur != nil && time.Now().After(dl) {
-					if os.Getenv("VERIF_REPLAY") != "" && vOutDir != "" {
-						rb, _ := json.Marshal(map[string]interface{}{"property": "C08", "kind": "c08.random", "failed": true, "signature": "C08/hang",
-							"message": fmt.Sprintf("the command did not terminate within %s", c08Limit)})
-						_ = os.WriteFile(filepath.Join(vOutDir, "replay-result.json"), rb, 0o644)
-						os.Exit(3)
-					}
-					vSaveFailure("C08", "c08.random", cur, &vFailure{Msg: fmt.Sprintf("the command did not terminate within %s (a typical run takes a millisecond)", c08Limit), Signature: "C08/hang"})
-					vAll.dump()
-					os.Exit(3)
-				}
-			}
-		}()
-	})
-}
 
 func c08Subst(args []string, book, log string) []string {
 	dir := filepath.Join(vScratchDir(), "c08-dir")
@@ -91,15 +56,10 @@ func checkC08(c c08Case, ctx *vCtx) *vFailure {
 		ctx.Label("cmd:" + c08CmdWord(c.Args))
 	}
 	ctx.NonTrivial(len(c.Book) > 0 && len(c.Log) > 0 && len(c.Args) > 0)
-	cj, _ := json.Marshal(c)
-	c08Watch()
-	c08Mu.Lock()
-	c08Current, c08Deadline = cj, time.Now().Add(c08Limit)
-	c08Mu.Unlock()
+	saved := vWatchLimit
+	vWatchLimit = c08Limit
 	r := vRunApp(vInvocation{Args: args, Env: env})
-	c08Mu.Lock()
-	c08Current = nil
-	c08Mu.Unlock()
+	vWatchLimit = saved
 	ctx.Run(1)
 	if r.Panic != "" {
 		return vFailSig(c08PanicSig(r.Panic), "%q panics: %s", c.Args, vTrunc(r.Panic, 2500))
